@@ -38,6 +38,7 @@ pub fn run(ctx: &Ctx) -> Outcome {
             }
         };
         let Some((r, ng)) = refm::compile(p) else { return };
+        refm::F1_COMPAT.with(|c| c.set(p.has_f1()));
         let fk = p.has_keepout_in_lookbehind() && fk_listed;
         let limited: Vec<_> = (0..4usize).filter_map(|l| compile_with(&s, |b| { b.backtrack_limit(l); }).val().cloned()).collect();
         let _ = hook_take();
